@@ -144,6 +144,19 @@ class SObj:
         return f"SObj({self.name})"
 
 
+class SAbsIter:
+    """an abstract finite iterable of unknown length: ``n`` (SInt / int) elements, element i given by ``get(i)`` (a
+    function of the index, e.g. built from an uninterpreted function), used with the loop-invariant rule"""
+
+    def __init__(self, n, get, name="iterable"):
+        self.n = n
+        self.get = get
+        self.name = name
+
+    def __repr__(self):
+        return f"<abstract iterable {self.name}>"
+
+
 class SOpaque:
     """a value nothing is known about (messages, warnings categories...)"""
 
